@@ -673,6 +673,25 @@ func (se *specEnv) call(e *Spec) sval {
 	case "store":
 		a, i, v := arg(0), arg(1), arg(2)
 		return sval{t: app("store", a.t, i.t, v.t), sort: a.sort}
+	case "folded":
+		// folded(P(args)): only the folded form (uninterpreted atom over arguments and footprint versions) of a
+		// predicate instance, without its expansion. Weaker than P(args) when assumed, provable only from an
+		// assumed instance over the same footprint when it is a goal: sound in both directions.
+		if len(e.Args) != 1 || e.Args[0].Op != "call" {
+			specFail("folded(P(args)) expected")
+		}
+		var dropped []Term
+		savedQ := c.qfacts
+		c.qfacts = &dropped
+		n := *se
+		n.assuming = false
+		c.lastAtom = ""
+		r := n.ev(e.Args[0])
+		c.qfacts = savedQ
+		if c.lastAtom == "" {
+			return r
+		}
+		return mathBool(c.lastAtom)
 	case "using":
 		// using(lemma(args)): a separately proved arithmetic lemma, instantiated when it is a
 		// hypothesis of a goal; "true" when the enclosing formula is assumed (the lemma is valid).
@@ -984,7 +1003,9 @@ func (fr *Frame) proveSpecEnv(kind, desc string, cl *Clause, e *Spec, se *specEn
 	if kind == "hint" {
 		c.obligeX(kind, desc, pos, props, reach, imp(and(hyps...), goal), nil, false)
 		// the proved hint (with its quantifiers) is available downstream
-		full := se.ev(e).t
+		sa := *se
+		sa.assuming = true
+		full := sa.ev(e).t
 		c.assume(imp(reach, full))
 		return
 	}
